@@ -118,3 +118,88 @@ def content_of(mode, n, variant=0):
         s = '书读写汉'
         return ''.join(s[(i + variant) % len(s)] for i in range(n))
     raise ValueError(mode)
+
+
+# ----------------------------------------------------------------------------------------------
+# C01 oracle: what a reference decoder must recover
+
+def norm_parts(content, mode=None, encoding=None):
+    """content -> list of (part_content, requested_mode, requested_encoding) following the documented API:
+    str/bytes/int = one part; list/tuple = parts, each optionally (content, mode, encoding)."""
+    if isinstance(content, (str, bytes, int)):
+        return [(content, mode, encoding)]
+    out = []
+    for item in content:
+        c, m, e = item, mode, encoding
+        if isinstance(item, tuple):
+            c = item[0]
+            if len(item) > 1:
+                m = item[1] or mode
+            if len(item) > 2:
+                e = item[2] or encoding
+        out.append((c, m, e))
+    return out
+
+
+def expected_parts(content, mode=None, encoding=None):
+    """list of (bytes, encoding_used) per part; raises UnicodeError/LookupError if the text is not encodable."""
+    res = []
+    for c, m, e in norm_parts(content, mode, encoding):
+        m = m.lower() if isinstance(m, str) else m
+        b, enc = Mo.expected_bytes(c, m, e)
+        res.append((b, enc))
+    return res
+
+
+def judge_payload(rep, exp_parts, eci, allow_sa=False):
+    """Returns list of (family, message) for statement C01 (payload identity and ECI headers)."""
+    out = []
+    for p in rep.problems:
+        fam = classify_problem(p)
+        if fam != 'remainder-bits':
+            out.append((fam, p))
+    if rep.segments is None:
+        return out or [('stream', 'no segments readable')]
+    if rep.sa is not None and not allow_sa:
+        out.append(('stream', 'unexpected Structured Append header'))
+    want = b''.join(b for b, _ in exp_parts)
+    got = rep.payload
+    if got != want:
+        out.append(('payload', 'decoded payload %r... (%d bytes) != content %r... (%d bytes); segments %r'
+                    % (got[:24], len(got), want[:24], len(want), [(s.mode, s.count) for s in rep.segments][:6])))
+        return out
+    micro = T.is_micro(rep.version)
+    # part boundaries
+    bounds = []
+    p = 0
+    for b, enc in exp_parts:
+        bounds.append((p, p + len(b), enc))
+        p += len(b)
+    p = 0
+    for s in rep.segments:
+        a, b_ = p, p + len(s.data)
+        p = b_
+        if s.eci is not None and (micro or not eci):
+            out.append(('eci-header', 'ECI header %r present although %s' % (s.eci, 'the symbol is Micro QR' if micro else 'eci was not requested')))
+            continue
+        if s.mode != 'byte' or a == b_:
+            continue
+        encs = set()
+        for (x, y, enc) in bounds:
+            if x < b_ and a < y:
+                encs.add(Mo.canon_codec(enc))
+        if not eci or micro:
+            continue
+        nonlatin = sorted(e for e in encs if e != 'iso8859-1')
+        if not nonlatin:
+            if s.eci not in (None, 3):
+                out.append(('eci-header', 'byte segment in ISO-8859-1 announced as ECI %r' % s.eci))
+        elif len(encs) > 1:
+            out.append(('eci-header', 'one byte segment covers parts in different encodings %r' % sorted(encs)))
+        else:
+            num = T.ECI_NUM.get(nonlatin[0])
+            if num is None:
+                out.append(('eci-header', 'symbol returned for encoding %r which has no ECI assignment number known to the model' % nonlatin[0]))
+            elif s.eci != num:
+                out.append(('eci-header', 'byte segment encoded in %s carries ECI %r, expected %r' % (nonlatin[0], s.eci, num)))
+    return out
